@@ -185,6 +185,9 @@ func (w *ScriptWriter) Write(p []byte) (int, error) {
 	w.Calls++
 	if w.FailAt > 0 && w.Calls == w.FailAt {
 		w.Failed = true
+		if w.Short == -1 {
+			return len(p), ErrSink // everything was taken, and the sink still reports an error
+		}
 		n := w.Short
 		if n >= len(p) {
 			n = len(p) - 1
